@@ -41,6 +41,14 @@ func c05ReadEntries(data []byte) []zipuEntry {
 }
 
 func c05GenList(g *Gen) []*zipuFile {
+	fs := c05GenListBase(g)
+	if g.Chance(25) {
+		fs = c05NearMissMutate(g, fs)
+	}
+	return fs
+}
+
+func c05GenListBase(g *Gen) []*zipuFile {
 	switch g.Intn(10) {
 	case 0, 1:
 		return zipuGenFiles(g.Rand, zipuGenOpts{}) // anything, incl. fake sizes
@@ -78,6 +86,9 @@ func genC05(g *Gen, n int) {
 	}
 	for _, fs := range c05FoldOrbitLists(g.Rand, false) {
 		c05EmitCreate(g, "example.com/m", "v1.0.0", fs, "fold-orbit-pair")
+	}
+	for _, fs := range c05NearMissLists(g.Rand, thorough) {
+		c05EmitCreate(g, "example.com/m", "v1.0.0", fs, "near-miss-name")
 	}
 	for g.st.Ops < n {
 		fs := c05GenList(g)
@@ -177,6 +188,163 @@ func c05AncestorClashLists() [][]*zipuFile {
 		}
 	}
 	return out
+}
+
+// c05Specials: the path elements the zip rules treat specially (go.mod placement / case / size, the
+// LICENSE size limit, vendor directories with their modules.txt exception, the hg archive file).
+var c05Specials = []string{"go.mod", "LICENSE", "vendor", "modules.txt", ".hg_archival.txt"}
+
+// c05NearMissNames: a dictionary of NEAR MISSES of one special name: the name with something in front
+// (hugo.mod, cargo.mod, _go.mod), behind (go.mod.bak, go.modx), or inside (gox.mod), with one byte
+// dropped or doubled, in other letter cases (GO.MOD, Go.mod, gO.mod, go.moD), and prefix/suffix
+// variants of the case variants (ErGO.MOD, GO.MOD.BAK).  The special name itself comes first.
+// checkFiles, checkZip and Unzip each recognise the special names on their own (base name vs whole
+// path, exact vs case-folded comparison, element vs substring), so a name that one of them takes for
+// special and another for ordinary makes Create produce an archive that CheckZip / Unzip refuse, or
+// changes what is extracted.
+func c05NearMissNames(s string) []string {
+	up, lo := strings.ToUpper(s), strings.ToLower(s)
+	flip := func(i int) string {
+		b := []byte(s)
+		if c := b[i] | 0x20; 'a' <= c && c <= 'z' {
+			b[i] ^= 0x20
+		}
+		return string(b)
+	}
+	first, last := 0, len(s)-1
+	for first < len(s)-1 && !('a' <= s[first]|0x20 && s[first]|0x20 <= 'z') {
+		first++
+	}
+	title := []byte(lo)
+	title[first] ^= 0x20
+	mid := len(s) / 2
+	cands := []string{s,
+		// case variants
+		up, lo, string(title), flip(first), flip(last),
+		// something in front
+		"x" + s, "_" + s, "hu" + s, "car" + s, "a." + s, "-" + s, "é" + s,
+		// something behind
+		s + "x", s + ".bak", s + "_", s + "-1", s + ".orig", s + "é",
+		// something inside, one byte dropped, one byte doubled
+		s[:1] + "x" + s[1:], s[:mid] + "x" + s[mid:], s[:mid] + "." + s[mid:], s[1:], s[:last], s[:mid] + s[mid+1:], s[:mid] + s[mid:mid+1] + s[mid:],
+		// in front of / behind a case variant
+		"Er" + up, "x" + string(title), up + ".BAK", flip(last) + "x", "X" + lo,
+	}
+	seen := map[string]bool{}
+	var out []string
+	for _, c := range cands {
+		if c != "" && !seen[c] {
+			seen[c] = true
+			out = append(out, c)
+		}
+	}
+	return out
+}
+
+// c05NearMissPlaces: where a near-miss name is put (% = the name): as a file in the root, below one
+// and two directories, below a root and a nested vendor directory, and as the name of a directory.
+var c05NearMissPlaces = []string{"%", "sub/%", "a/b/%", "vendor/%", "sub/vendor/%", "%/x.go", "sub/%/y.go", "vendor/%/z.go"}
+
+// c05NearMissLists: every near miss of every special name in every placement, next to a root go.mod
+// and an ordinary file, with honest small contents, to be taken through Create -> CheckZip / Unzip.
+// This class was missing: the random lists draw path elements from a dictionary that has the special
+// names themselves, three of their case variants and `LICENSE.txt` / `vendor.go` / `go.sum`, and the
+// scenario lists add `avendor`, `vendorx`, `xvendor` directories -- but never a file whose last element
+// merely ENDS or BEGINS with a special name (hugo.mod, _go.mod, ErGO.MOD, xLICENSE, modules.txt.bak,
+// x.hg_archival.txt); the size-limit sweep has a few such names but only with 16 MiB contents in the
+// oracle.  Such files are ordinary: they must be archived, pass CheckZip and come out of Unzip.
+// single = one near miss per list (oracle, thorough generator: small failing inputs; an
+// implementation-only case costs about a millisecond).  Otherwise (quick generator, where every list
+// costs three model evaluations) the near misses of all special names are packed per placement into
+// lists without case-fold clashes; the special names themselves and their case variants stay alone
+// in their lists (sub/go.mod makes sub a submodule and would hide everything else below sub), and of
+// those only a random fifth is emitted (the op budget is shared with the random lists, whose
+// dictionary has the special names and their common case variants anyway).
+func c05NearMissLists(r *Rand, single bool) [][]*zipuFile {
+	small := func(p, c string) *zipuFile {
+		return &zipuFile{path: p, mode: 'r', size: int64(len(c)), content: []byte(c)}
+	}
+	mk := func(paths []string) []*zipuFile {
+		fs := []*zipuFile{small("a.go", "package a\n")}
+		haveMod := false
+		for i, p := range paths {
+			c := "near miss " + itoa(i) + "\n"
+			if strings.EqualFold(path.Base(p), "go.mod") {
+				c = "module example.com/m/" + itoa(i) + "\n"
+			}
+			if p == "go.mod" {
+				haveMod = true
+				c = "module example.com/m\n"
+			}
+			fs = append(fs, small(p, c))
+		}
+		if !haveMod {
+			fs = append(fs, small("go.mod", "module example.com/m\n"))
+		}
+		return fs
+	}
+	var out [][]*zipuFile
+	for _, pl := range c05NearMissPlaces {
+		var packed [][]string // packed[k]: paths of the k-th packed list of this placement
+		for _, s := range c05Specials {
+			depth := map[string]int{} // fold class -> number of members placed so far
+			for _, nm := range c05NearMissNames(s) {
+				p := strings.Replace(pl, "%", nm, 1)
+				if single {
+					out = append(out, mk([]string{p}))
+					continue
+				}
+				if strings.EqualFold(nm, s) {
+					if r.Chance(20) {
+						out = append(out, mk([]string{p}))
+					}
+					continue
+				}
+				k := depth[strings.ToLower(nm)]
+				depth[strings.ToLower(nm)]++
+				for len(packed) <= k {
+					packed = append(packed, nil)
+				}
+				packed[k] = append(packed[k], p)
+			}
+		}
+		for _, ps := range packed {
+			out = append(out, mk(ps))
+		}
+	}
+	return out
+}
+
+// c05NearMissMutate: the same dictionary inside the random lists: one to three near misses of a
+// special name are added as regular files below a directory the list already has (or the root), so
+// that they meet the list's other files (submodules, vendor trees, case variants, odd modes).
+func c05NearMissMutate(g *Gen, fs []*zipuFile) []*zipuFile {
+	dirs := []string{""}
+	have := map[string]bool{}
+	for _, f := range fs {
+		have[f.path] = true
+		if d := path.Dir(f.path); d != "." && d != "/" && path.Clean(f.path) == f.path && !path.IsAbs(f.path) {
+			dirs = append(dirs, d+"/")
+		}
+	}
+	for k := 1 + g.Intn(3); k > 0; k-- {
+		nms := c05NearMissNames(g.Pick(c05Specials))
+		p := g.Pick(dirs) + nms[1+g.Intn(len(nms)-1)]
+		if g.Chance(15) {
+			p += "/" + g.Pick([]string{"x.go", "go.mod", "LICENSE", "modules.txt"})
+		}
+		if have[p] {
+			continue
+		}
+		have[p] = true
+		c := zipuContent(g.Rand, path.Base(p))
+		// anywhere in the list (the collision rules depend on the order)
+		i := g.Intn(len(fs) + 1)
+		fs = append(fs, nil)
+		copy(fs[i+1:], fs[i:])
+		fs[i] = &zipuFile{path: p, mode: 'r', size: int64(len(c)), content: c}
+	}
+	return fs
 }
 
 // c05FoldOrbits: every orbit of unicode.SimpleFold with more than one member, members ascending.
@@ -290,6 +458,9 @@ func oracleC05(g *Gen, n int) {
 		c05Check(g, "example.com/m", "v1.0.0", fs)
 	}
 	for _, fs := range c05FoldOrbitLists(g.Rand, true) {
+		c05Check(g, "example.com/m", "v1.0.0", fs)
+	}
+	for _, fs := range c05NearMissLists(g.Rand, true) {
 		c05Check(g, "example.com/m", "v1.0.0", fs)
 	}
 	for i := 0; i < n; i++ {
